@@ -141,7 +141,9 @@ Definition entry_lru (cap : sx) (keys : sx) (ops : sx) (io : sx) : sx :=
   match asNat cap, asListOf asB keys, asListOf lop_of_sx ops with
   | Some c, Some ks, Some os =>
       let m := L (map sx_of_lobs (lru_run c ks os [])) in
-      L [m; L []; L (if str_eqb (print m) (print io) then [] else [sxS "lru_spec"])]
+      (* LRU-only cases are not [case]s of C12_holds: their checker is equality with [lru_run], the function the
+         lru_spec theorems quantify over; the flag says so (C12_lru_cases_covered) *)
+      L [m; L []; L (if str_eqb (print m) (print io) then [] else [sxS "lru_spec"]); L []; I 1]
   | _, _, _ => sxS "bad-case"
   end.
 
@@ -155,6 +157,6 @@ Definition entry (x : sx) : sx :=
       let m := run_model c in
       L [ L (map (fun p => L [sx_of_gres (fst p); sx_of_gres (snd p)]) m);
           L (map sxS (holds c m)); L (map sxS (holds c io));
-          L (map (fun q => sx_of_res sx_of_dict (spec_of c q)) (cCalls c)) ]
+          L (map (fun q => sx_of_res sx_of_dict (spec_of c q)) (cCalls c)); sxBool (validb c) ]
   end
   end.
